@@ -1,0 +1,23 @@
+// Copyright (c) HashiCorp, Inc.
+// SPDX-License-Identifier: MPL-2.0
+
+//go:build verif
+
+package protocol
+
+import (
+	"context"
+	"net"
+)
+
+// SimDial, if set, replaces the kernel dialer used by Dial so that a
+// deterministic simulator can provide the transport.
+var SimDial func(ctx context.Context, addr string) (net.Conn, error)
+
+func simDial(ctx context.Context, addr string) (net.Conn, bool, error) {
+	if SimDial == nil {
+		return nil, false, nil
+	}
+	c, err := SimDial(ctx, addr)
+	return c, true, err
+}
